@@ -152,6 +152,84 @@ func decoder[T any, P interface {
 
 // --- small helpers -------------------------------------------------------------------------------
 
+// esc makes a name safe for the space/punctuation separated line protocol without changing what the
+// model sees: the driver undoes it (ScVerif/C20/Esc.lean). "" -> %e, "%" -> %25, " " -> %20.
+func esc(s string) string {
+	if s == "" {
+		return "%e"
+	}
+	return strings.ReplaceAll(strings.ReplaceAll(s, "%", "%25"), " ", "%20")
+}
+
+func unesc(s string) string {
+	if s == "%e" {
+		return ""
+	}
+	return strings.ReplaceAll(strings.ReplaceAll(s, "%20", " "), "%25", "%")
+}
+
+// encNames encodes a list of raw names (each escaped); encList joins already encoded parts.
+func encNames(xs []string) string {
+	ys := make([]string, len(xs))
+	for i, x := range xs {
+		ys[i] = esc(x)
+	}
+	return encList(ys)
+}
+
+// nearMiss returns a variant of a configured name that a lenient comparison (case folding, trimming,
+// prefix matching, unicode normalisation) would accept but exact comparison must not: case variants,
+// leading/trailing ASCII or no-break space, a proper prefix, an extension, a look-alike letter, empty.
+func nearMiss(rng *rand.Rand, name string) string {
+	lookalike := map[rune]rune{'a': 'а', 'e': 'е', 'o': 'о', 'p': 'р', 'c': 'с', 'i': 'і', 'x': 'х', 'l': 'ⅼ', '1': 'l', '0': 'O'}
+	for try := 0; try < 8; try++ {
+		var v string
+		switch rng.Intn(10) {
+		case 0:
+			v = strings.ToUpper(name)
+		case 1:
+			v = strings.ToLower(name)
+		case 2: // Title / swapped first letter
+			if name != "" {
+				r := []rune(name)
+				if up := []rune(strings.ToUpper(string(r[0]))); string(up) != string(r[0]) {
+					r[0] = up[0]
+				} else {
+					r[0] = []rune(strings.ToLower(string(r[0])))[0]
+				}
+				v = string(r)
+			}
+		case 3:
+			v = " " + name
+		case 4:
+			v = name + " "
+		case 5:
+			v = name + "\u00a0"
+		case 6:
+			if r := []rune(name); len(r) > 0 {
+				v = string(r[:len(r)-1])
+			}
+		case 7:
+			v = name + "x"
+		case 8:
+			r := []rune(name)
+			for i, c := range r {
+				if l, ok := lookalike[c]; ok {
+					r[i] = l
+					break
+				}
+			}
+			v = string(r)
+		case 9:
+			v = ""
+		}
+		if v != name {
+			return v
+		}
+	}
+	return name + "_"
+}
+
 func encList(xs []string) string {
 	if len(xs) == 0 {
 		return "-"
